@@ -1657,7 +1657,12 @@ class NumberOrderedForm(Operator):
                 continue
 
             # Convert the coefficient to a polynomial and extract the generators
-            poly = sympy.poly(coeff)
+            try:
+                poly = sympy.poly(coeff)
+            except sympy.polys.polyerrors.GeneratorsNeeded:
+                # sympy.poly cannot infer generators if a factor is a pure number,
+                # e.g. x * (1 + I); sympy.Poly expands first and can.
+                poly = sympy.Poly(coeff)
             number_gens = tuple(
                 gen for gen in poly.gens if gen in self._number_operator_placeholders
             )
